@@ -9,6 +9,7 @@ import (
 	"fmt"
 	"io"
 	"log"
+	"math"
 	"os"
 	"path/filepath"
 	"regexp"
@@ -124,14 +125,26 @@ func (s *JSONDB) newWriter(dagFile string, t time.Time, requestID string) (*writ
 
 func (s *JSONDB) ReadStatusRecent(dagFile string, n int) []*model.StatusFile {
 	var ret []*model.StatusFile
-	files := s.latest(s.globPattern(dagFile), n)
+	// Look at all the files, newest first, until n runs have been read: a file
+	// left empty or torn by a killed process, or the second copy of a run whose
+	// compaction was interrupted, must not take the place of an older run.
+	files := s.latest(s.globPattern(dagFile), math.MaxInt)
+	seen := make(map[string]bool)
 	for _, file := range files {
+		if len(ret) >= n {
+			break
+		}
+		run := runKey(file)
+		if seen[run] {
+			continue
+		}
 		status, err := s.cache.LoadLatest(file, func() (*model.Status, error) {
 			return ParseFile(file)
 		})
 		if err != nil {
 			continue
 		}
+		seen[run] = true
 		ret = append(ret, &model.StatusFile{
 			File:   file,
 			Status: status,
@@ -140,14 +153,31 @@ func (s *JSONDB) ReadStatusRecent(dagFile string, n int) []*model.StatusFile {
 	return ret
 }
 
+// runKey identifies the run a status file belongs to: the original file and
+// its compacted copy (suffix "_c") are the same run.
+func runKey(file string) string {
+	return strings.TrimSuffix(strings.TrimSuffix(file, extDat), "_c")
+}
+
 func (s *JSONDB) ReadStatusToday(dagFile string) (*model.Status, error) {
-	file, err := s.latestToday(dagFile, time.Now(), s.latestStatusToday)
+	files, err := s.latestTodayFiles(dagFile, time.Now(), s.latestStatusToday)
 	if err != nil {
 		return nil, err
 	}
-	return s.cache.LoadLatest(file, func() (*model.Status, error) {
-		return ParseFile(file)
-	})
+	// The newest file may have been left empty or torn by a process that was
+	// killed before its first status was written: fall back to the next one.
+	var lastErr error
+	for _, file := range files {
+		file := file
+		status, err := s.cache.LoadLatest(file, func() (*model.Status, error) {
+			return ParseFile(file)
+		})
+		if err == nil {
+			return status, nil
+		}
+		lastErr = err
+	}
+	return nil, lastErr
 }
 
 func (s *JSONDB) FindByRequestID(dagFile string, requestID string) (*model.StatusFile, error) {
@@ -288,6 +318,15 @@ func (s *JSONDB) newFile(dagFile string, t time.Time, requestID string) (string,
 }
 
 func (s *JSONDB) latestToday(dagFile string, day time.Time, latestStatusToday bool) (string, error) {
+	files, err := s.latestTodayFiles(dagFile, day, latestStatusToday)
+	if err != nil {
+		return "", err
+	}
+	return files[0], nil
+}
+
+// latestTodayFiles returns the candidates for the latest status, newest first.
+func (s *JSONDB) latestTodayFiles(dagFile string, day time.Time, latestStatusToday bool) ([]string, error) {
 	var pattern string
 	if latestStatusToday {
 		pattern = fmt.Sprintf("%s.%s*.*.dat", s.globPrefix(dagFile), day.Format(dateFormat))
@@ -296,13 +335,13 @@ func (s *JSONDB) latestToday(dagFile string, day time.Time, latestStatusToday bo
 	}
 	matches, err := filepath.Glob(pattern)
 	if err != nil || len(matches) == 0 {
-		return "", persistence.ErrNoStatusDataToday
+		return nil, persistence.ErrNoStatusDataToday
 	}
-	ret := filterLatest(matches, 1)
+	ret := filterLatest(matches, len(matches))
 	if len(ret) == 0 {
-		return "", persistence.ErrNoStatusData
+		return nil, persistence.ErrNoStatusData
 	}
-	return ret[0], nil
+	return ret, nil
 }
 
 func (s *JSONDB) latest(pattern string, n int) []string {
